@@ -1278,8 +1278,8 @@ def k7_document(i: int) -> bool:
     if c['odd'] == 'latest':
         name, text, region = ob.pick(DOC_LATEST, i)
         r = cli.run_cli(text)
-        if name in ('glob-pattern-not-closed',):
-            # a glob pattern has no invalid form in the manual: any documented outcome
+        if name.startswith('glob-pattern-'):
+            # a glob pattern has no invalid form in the manual: any documented outcome (but not INTERNAL_ERROR)
             return ob.post(documented_outcome(r))
         return ob.post(documented_outcome(r) and r['ident'] in REPORTED and _shows(r['stderr'], r['path'], 2, text.split('\n')[1]))
     name, text, idents, line, quoted = ob.pick(DOC_MISTAKES, i)
@@ -1339,11 +1339,11 @@ def obligations(tier: str) -> List[Ob]:
                       entry='processors._Parser.apply -> full_execution.execute'))
     obs.append(Ob(name='K1:site:seeded-oracle-error', fn='k1_site', case=dict(quick=True, site='timeout', oracle_bug=True, n_bound=3),
                   kernel='K1', bound='seeded: timeout = 0 is claimed to be a validation error', timeout=600, expect=ob.REFUTE))
-    for n in range(0, (3 if quick else 6) + 1):
+    for n in range(0, (3 if quick else 5) + 1):
         obs.append(Ob(name='K1:range:len%d' % n, fn='k1_range', case=dict(n=n), kernel='K1',
                       bound='every LINE-NUMBER-RANGE text of exactly %d characters of {1, :, -, space, x}: rejected by validation iff it is '
                             'not INT / INT: / :INT / INT:INT, otherwise the limits are the denoted integers' % n,
-                      timeout=900 if n <= 4 else 3000, real=REAL_K1_RANGE, stubs=(STUB_LITERALS,),
+                      timeout=900, real=REAL_K1_RANGE, stubs=(STUB_LITERALS,),
                       entry='resolvers._RangeValidator(text).validate_pre_sds_if_applicable'))
     obs.append(Ob(name='K1:range:seeded-oracle-error', fn='k1_range', case=dict(n=2, oracle_bug=True), kernel='K1',
                   bound='seeded: `:INT` is claimed to be rejected', timeout=300, expect=ob.REFUTE))
